@@ -74,7 +74,7 @@ def parse_unit(path):
                 continue
             if block is not None and block[0] == "raw" and not d.split()[0] in (
                     "unit", "prelude", "specs", "from", "take", "stub", "contract", "loop", "hint", "replace", "raw",
-                    "obligation", "canary", "derive_eq", "include"):
+                    "obligation", "canary", "derive_eq", "include", "desugar_enumerate"):
                 continue
             block = None
             cur_label = None
@@ -139,6 +139,8 @@ def parse_unit(path):
                 u.labels[m.group(1)] = dict(props=m.group(2).split(","), desc=m.group(3))
             elif w[0] == "canary":
                 u.canary = w[1]
+            elif w[0] == "desugar_enumerate":
+                u.desugar = getattr(u, "desugar", []) + [(w[1], int(w[2]))]
             elif w[0] == "derive_eq":
                 u.derive_eq = getattr(u, "derive_eq", []) + w[1:]
             else:
@@ -323,6 +325,58 @@ def _loops_in(text, toks, lo, hi):
     return res
 
 
+
+def _desugar_enumerate(text, k, rules):
+    """R7: `for (I, X) in E.iter().enumerate() { B }` (k-th loop of the fn, B contains `continue`) ->
+    `let mut I: usize = 0; while I < E.len() { let X = &E[I]; B[continue -> {I += 1; continue;}] I += 1; }`.
+    Checked syntactically: B assigns neither I nor E and has no `continue` inside a nested loop."""
+    parts = _fn_parts(text)
+    toks = parts["toks"]
+    loops = _loops_in(text, toks, parts["open"] + 1, parts["close"])
+    if k >= len(loops):
+        raise BuildError("anchor lost: desugar loop %d (found %d)" % (k, len(loops)))
+    kw, bo = loops[k]
+    hdr = [t[1] for t in toks[kw:bo]]
+    # expected: for ( I , X ) in E... . iter ( ) . enumerate ( )
+    if not (hdr[0] == "for" and hdr[1] == "(" and hdr[3] == "," and hdr[5] == ")" and hdr[6] == "in"
+            and hdr[-8:] == [".", "iter", "(", ")", ".", "enumerate", "(", ")"]):
+        raise BuildError("anchor lost: desugar loop %d is not `for (i, x) in E.iter().enumerate()`: %s" % (k, " ".join(hdr)))
+    ivar, xvar = hdr[2], hdr[4]
+    e_text = text[toks[kw + 7][2]:toks[bo - 8][2]].strip()
+    bc = rsx.match_close(toks, bo)
+    # nested loops inside the body
+    nested = _loops_in(text, toks, bo + 1, bc)
+    nested_ranges = [(toks[b][2], toks[rsx.match_close(toks, b)][3]) for (_, b) in nested]
+    body = text[toks[bo][3]:toks[bc][2]]
+    base = toks[bo][3]
+    # checks on body tokens
+    for j in range(bo + 1, bc):
+        t = toks[j]
+        if t[0] == "id" and t[1] == ivar and toks[j + 1][1] in ("=", "+=", "-="):
+            raise BuildError("R7 refused: loop body assigns %s" % ivar)
+        if t[0] == "id" and t[1] == "continue":
+            if any(a <= t[2] < b for (a, b) in nested_ranges):
+                raise BuildError("R7 refused: `continue` inside a nested loop")
+    out = []
+    pos = 0
+    n_cont = 0
+    for j in range(bo + 1, bc):
+        t = toks[j]
+        if t[0] == "id" and t[1] == "continue":
+            if toks[j + 1][1] != ";":
+                raise BuildError("R7 refused: labelled continue")
+            out.append(body[pos:t[2] - base])
+            out.append("{ %s += 1; continue; }" % ivar)
+            pos = toks[j + 1][3] - base
+            n_cont += 1
+    out.append(body[pos:])
+    newbody = "".join(out)
+    indent = " " * 8
+    new = ("let mut %s: usize = 0;\n%swhile %s < %s.len() {\n%s    let %s = &%s[%s];%s\n%s    %s += 1;\n%s}"
+           % (ivar, indent, ivar, e_text, indent, xvar, e_text, ivar, newbody.rstrip(), indent, ivar, indent))
+    rules.append("R7 for (%s, %s) in %s.iter().enumerate() -> while loop (%d continue rewritten)" % (ivar, xvar, e_text, n_cont))
+    return text[:toks[kw][2]] + new + text[toks[bc][3]:]
+
 class Emitter:
     def __init__(self):
         self.lines = []
@@ -449,6 +503,9 @@ def transform_fn(u, fnkey, text, em, meta, is_trait_impl=False, nested=False, st
                                                                                     cnt))
         plain = plain.replace(rp["old"], rp["new"])
         rules.append("%s `%s` -> `%s`" % (rp["rule"], rp["old"], rp["new"]))
+    for (fk, k) in getattr(u, "desugar", []):
+        if fk == fnkey:
+            plain = _desugar_enumerate(plain, k, rules)
     plain = _apply_r4(plain, set(r4), rules)
     if add_pub and not is_trait_impl:
         p2 = _ensure_pub(plain)
